@@ -31,7 +31,7 @@ func ruleC07(r *Report) {
 	r.Rule("C07.registration", "what the SP publishes in Metadata() is what it sends and insists on: entity ID = request issuer = expected audience, an HTTP-POST ACS endpoint at the expected recipient = the ACS URL in requests, the SP certificate as encryption key", 2)
 	safely(r, func() { checkRegistration(r, p) })
 	checkEscape(r, p, "C07.escape", func(fn *ssa.Function) bool {
-		return fn.Signature.Recv() != nil && (isMethodOf(fn, "IdpAuthnRequest") || isMethodOf(fn, "IdentityProvider")) || fn.Name() == "elementToBytes"
+		return fn.Signature.Recv() != nil && (isMethodOf(fn, "IdpAuthnRequest") || isMethodOf(fn, "IdentityProvider")) || isElementSerialiser(p, fn)
 	})
 }
 
@@ -885,14 +885,12 @@ func checkRegistration(r *Report, p *Prog) {
 	}
 	// the validator's expectations: the non-assertion side of the eq atoms on Audience and Recipient
 	var audWant, rcptWant []string
-	for _, vn := range []string{"validateAssertion", "validateAudienceRestriction"} {
-		vf := p.Func("saml", "ServiceProvider", vn)
-		if vf == nil {
-			continue
-		}
+	{
+		// the assertion parser with its validators inlined (roles resolved by the SP model, not by name)
+		m := buildSPModel(r)
+		vf := m.AssertFn
 		r.Fn(p.FnName(vf))
-		av := NewAnalysis(p)
-		av.Inline = validatorInline(p, NewScope(p, r.Tier))
+		av := m.A
 		fv := av.Ctx(vf)
 		fv.ensureConds()
 		fv.RejectFormula()
